@@ -52,6 +52,51 @@ func TestMain(m *testing.M) {
 	vt.Main(m)
 }
 
+// realFault tells injected network faults from variations of a conformant server's behaviour.
+func realFault(f string) bool {
+	switch f {
+	case "none", "delayed", "force-basic", "snap-rx", "snap-tx", "snap-both":
+		return false
+	}
+	return true
+}
+
+// resolveVia picks, among the delivered model replies that describe the reported offset, the one the
+// result was computed from. An exchange can be described both by its own basic reply and by the
+// interleaved reply to the following request; then the client's record of the reply it evaluated last
+// tells the two apart. That record must in any case name a kind of reply the model did deliver.
+func resolveVia(vias []*netlab.Exchange, evaluated []netlab.Record) (*netlab.Exchange, string) {
+	var basic, inter *netlab.Exchange
+	for _, v := range vias {
+		if v.Interleaved {
+			inter = v
+		} else {
+			basic = v
+		}
+	}
+	if len(evaluated) > 0 {
+		if a, ok := evaluated[len(evaluated)-1].Attrs["interleaved"]; ok && a.Kind() == slog.KindBool {
+			if a.Bool() {
+				if inter == nil {
+					return nil, "the client says the result is from an interleaved reply, but no interleaved reply the model delivered describes the reported offset"
+				}
+				return inter, ""
+			}
+			if basic == nil {
+				return nil, "the client says the result is from a basic reply, but no basic reply the model delivered describes the reported offset"
+			}
+			return basic, ""
+		}
+	}
+	if basic != nil && inter != nil {
+		return nil, ""
+	}
+	if inter != nil {
+		return inter, ""
+	}
+	return basic, ""
+}
+
 // nextTheta returns a model clock offset at least 2 s away from every one used before in this process
 // (so an offset identifies the exchange it was computed from), with varying sign and magnitude.
 func nextTheta(t *rapid.T) time.Duration {
@@ -136,6 +181,9 @@ func TestPropIPClient(t *testing.T) {
 					p.Delay = time.Duration(rapid.Int64Range(1, 20).Draw(t, "delay-ms")) * time.Millisecond
 				case "force-basic":
 					p.ForceBasic = true
+				case "snap-rx", "snap-tx", "snap-both":
+					p.Snap = f[5:]
+					p.SnapFrac = rapid.OneOf(rapid.SampledFrom([]uint32{0, 0, 0, 1, 0xffffffff, 0x80000000, 0x7fffffff}), rapid.Uint32()).Draw(t, "snap-frac")
 				}
 				plans = append(plans, p)
 			}
@@ -170,10 +218,13 @@ func TestPropIPClient(t *testing.T) {
 					f = faults[i]
 				}
 				meta[ex] = &exMeta{call: ci, fault: f}
+				if f != "none" {
+					labels["plan:"+f]++
+				}
 				if ex.Genuine != nil {
 					lastGenuine = ex.Genuine
 				}
-				if f != "none" && f != "delayed" && f != "force-basic" {
+				if realFault(f) {
 					clean = false
 				}
 			}
@@ -203,7 +254,7 @@ func TestPropIPClient(t *testing.T) {
 			}
 			// which exchange must the result describe?
 			var matched *netlab.Exchange
-			var matchedVia *netlab.Exchange
+			var vias []*netlab.Exchange
 			var why []string
 			for _, ex := range exs {
 				if ex.Dropped || !delivered(ex) {
@@ -225,7 +276,8 @@ func TestPropIPClient(t *testing.T) {
 					if matched != nil && matched != j {
 						t.Fatalf("offset %v fits two exchanges (harness thetas too close)", off)
 					}
-					matched, matchedVia = j, ex
+					matched = j
+					vias = append(vias, ex)
 				} else {
 					why = append(why, fmt.Sprintf("exchange %v (via %v): envelope [%v, %v]", j, ex, lo, hi))
 				}
@@ -255,7 +307,13 @@ func TestPropIPClient(t *testing.T) {
 					labels["tight-bound-checked"]++
 				}
 			}
-			if matchedVia.Interleaved {
+			matchedVia, bad := resolveVia(vias, evaluated)
+			if bad != "" {
+				t.Fatalf("%s (log %v)", bad, log)
+			}
+			if matchedVia == nil {
+				labels["reply-kind-ambiguous"]++
+			} else if matchedVia.Interleaved {
 				labels["accepted-interleaved"]++
 				if !c.InInterleavedMode() {
 					t.Fatalf("an interleaved reply was accepted but the client does not report interleaved mode")
@@ -271,13 +329,13 @@ func TestPropIPClient(t *testing.T) {
 			}
 		}
 
-		faultGen := rapid.SampledFrom([]string{"none", "none", "none", "none", "none", "none", "none", "duplicate", "stale-first", "wrong-source-first", "delayed", "drop-request", "drop-response", "duplicate", "stale-first", "wrong-source-first", "delayed"})
+		faultGen := rapid.SampledFrom([]string{"none", "none", "none", "none", "none", "none", "none", "duplicate", "stale-first", "wrong-source-first", "delayed", "drop-request", "drop-response", "duplicate", "stale-first", "wrong-source-first", "delayed", "force-basic", "snap-rx", "snap-tx", "snap-both", "snap-rx"})
 		t.Repeat(map[string]func(*rapid.T){
 			"exchange": func(t *rapid.T) {
 				fs := rapid.SliceOfN(faultGen, 3, 3).Draw(t, "faults")
 				call(t, fs)
 				for _, f := range fs {
-					if f != "none" && f != "delayed" && f != "force-basic" {
+					if realFault(f) {
 						faultSeen = true
 					}
 				}
